@@ -26,10 +26,15 @@
      panics                      reflect.Call argument mismatch, a handler panic and calling a nil
                                  completion function are explicit [panics] flags consumed by
                                  SafeCall's recover; a panic OUTSIDE SafeCall is [Escaped] *)
+From Coq Require Export Strings.Byte.
 From Cell2V Require Import Common.Tac Common.ListX.
 
 Definition str := list Z.
 Definition str_eqb : str -> str -> bool := zlist_eqb.
+
+(* In case files a string is written (B [x67; x2e; ...]) with the 256 constructors of Coq.Init.Byte
+   (parsing a constructor name is an order of magnitude cheaper than parsing a numeral). *)
+Definition B (l : list Byte.byte) : str := map (fun b => Z.of_N (Byte.to_N b)) l.
 
 (* ---- string-keyed maps: newest binding first ---- *)
 Definition smap (V : Type) := list (str * V).
